@@ -126,6 +126,21 @@ func genC14(tier string, rng *Rng) {
 			}
 		}
 	}
+	// bodies at, just below and just above the configured limit (the prefetch decision compares the two)
+	for _, size := range []int{5, 17, 4096, 8191, 8192} {
+		body := genBodyBytes(rng, size)
+		fixed := append([]byte("POST /f HTTP/1.1\r\nHost: h\r\nContent-Length: "+strconv.Itoa(len(body))+"\r\n\r\n"), body...)
+		fixed = append(fixed, probe...)
+		for _, lim := range []int{size - 1, size, size + 1} {
+			for _, stop := range []int{0, size / 2, size, size + 2} {
+				for _, rs := range []int{3, 16384} {
+					for _, end := range []string{"eof", "stall"} {
+						runOp([]string{"sserve", "-", strconv.Itoa(lim), end, hx(fixed), genCuts(rng, len(fixed)), strconv.Itoa(rs), strconv.Itoa(stop)})
+					}
+				}
+			}
+		}
+	}
 	// malformed framing in the middle of a streamed body: the leftover bytes must never become a request
 	for _, bad := range []string{"10000000000000000", "1000000000000000", "zz", "5;ext=1", "-1", ""} {
 		s := []byte("POST /c HTTP/1.1\r\nHost: h\r\nTransfer-Encoding: chunked\r\n\r\n1\r\na\r\n" + bad + "\r\n\r\nGET /smuggled HTTP/1.1\r\nHost: x\r\n\r\n")
